@@ -38,22 +38,24 @@ Definition descriptors (docs : list (string * val)) : list (val * val) :=
 
 Definition is_external (spec : val) : bool := dhas "external" (dict_of spec).
 
+(* the external references of one Event according to its descriptor: (key, datum id) pairs, in data order *)
+Definition ext_items_of (ds : list (val * val)) (e : dict) : list (string * val) :=
+  match vget (get_or "descriptor" e VNone) ds with
+  | None => []
+  | Some dksv =>
+      let dks := dict_of dksv in
+      let fl := dict_of (get_or "filled" e (VDict [])) in
+      filter (fun kv =>
+          match dget (fst kv) dks with
+          | Some spec => is_external spec && negb (truthy (get_or (fst kv) fl (VBool false)))
+          | None => false
+          end) (dict_of (get_or "data" e (VDict [])))
+  end.
+
 (* the (event, external key, datum id) triples that must each become one StreamDatum *)
 Definition expected_refs (docs : list (string * val)) : list (dict * string * val) :=
   let ds := descriptors docs in
-  flat_map (fun e =>
-    match vget (get_or "descriptor" e VNone) ds with
-    | None => []
-    | Some dksv =>
-        let dks := dict_of dksv in
-        let fl := dict_of (get_or "filled" e (VDict [])) in
-        flat_map (fun kv =>
-          match dget (fst kv) dks with
-          | Some spec => if is_external spec && negb (truthy (get_or (fst kv) fl (VBool false)))
-                         then [(e, fst kv, snd kv)] else []
-          | None => []
-          end) (dict_of (get_or "data" e (VDict [])))
-    end) (expand_events docs).
+  flat_map (fun e => map (fun kv => (e, fst kv, snd kv)) (ext_items_of ds e)) (expand_events docs).
 
 Definition passthrough_uids (docs : list (string * val)) : list val :=
   flat_map (fun nd => if String.eqb (fst nd) "stream_datum" then [get_or "uid" (dict_of (snd nd)) VNone] else []) docs.
@@ -76,12 +78,59 @@ Definition datum_frames (docs : list (string * val)) : list (val * val) :=
     let '(name, d) := nd in
     let kv := dict_of d in
     if String.eqb name "datum" then
-      [(get_or "datum_id" kv VNone, get_or "frame" (dict_of (get_or "datum_kwargs" kv (VDict []))) VNone)]
+      match dget "datum_id" kv with
+      | Some id => [(id, get_or "frame" (dict_of (get_or "datum_kwargs" kv (VDict []))) VNone)]
+      | None => []
+      end
     else if String.eqb name "datum_page" then
       let ids := match dget "datum_id" kv with Some (VList l) => l | _ => [] end in
       let fs := match dget "frame" (dict_of (get_or "datum_kwargs" kv (VDict []))) with Some (VList l) => l | _ => [] end in
       map (fun i => (nth i ids VNone, nth i fs VNone)) (seq 0 (List.length ids))
     else []) docs.
+
+(* descriptor uid -> stream name *)
+Definition descriptor_names (docs : list (string * val)) : list (val * val) :=
+  flat_map (fun nd =>
+    let '(name, d) := nd in
+    if String.eqb name "descriptor" then [(get_or "uid" (dict_of d) VNone, get_or "name" (dict_of d) VNone)]
+    else []) docs.
+
+(* The index ranges every referenced Datum must get, as a function of the Events in arrival order and
+   of the table of Datum frames only - the arrival times of the Datums do not enter:
+   no frame: [seq_num - 1, seq_num); frame: the frame counters advanced in Event order. *)
+Fixpoint spec_items (frames : list (val * val)) (dn : string) (q : val)
+         (nf : list ((string * string) * (Z * Z))) (items : list (string * val))
+  : list ((string * string) * (Z * Z)) * list (val * (Z * Z)) :=
+  match items with
+  | [] => (nf, [])
+  | (k, id) :: r =>
+      match vget id frames with
+      | Some (VInt f) =>
+          let '(ci', rg) := frame_step (nf_get (dn, k) nf) f in
+          let '(nf2, l) := spec_items frames dn q (nf_set (dn, k) ci' nf) r in
+          (nf2, (id, rg) :: l)
+      | _ =>
+          let rg := match q with VInt z => ((z - 1)%Z, z) | _ => (0%Z, 0%Z) end in
+          let '(nf2, l) := spec_items frames dn q nf r in
+          (nf2, (id, rg) :: l)
+      end
+  end.
+
+Fixpoint spec_events (ds names frames : list (val * val)) (nf : list ((string * string) * (Z * Z)))
+         (evs : list dict) : list (val * (Z * Z)) :=
+  match evs with
+  | [] => []
+  | e :: r =>
+      let dn := match vget (get_or "descriptor" e VNone) names with Some (VStr s) => s | _ => "" end in
+      let '(nf2, l) := spec_items frames dn (get_or "seq_num" e VNone) nf (ext_items_of ds e) in
+      l ++ spec_events ds names frames nf2 r
+  end.
+
+Definition spec_ranges (docs : list (string * val)) : list (val * (Z * Z)) :=
+  spec_events (descriptors docs) (descriptor_names docs) (datum_frames docs) [] (expand_events docs).
+
+Fixpoint rget (id : val) (l : list (val * (Z * Z))) : option (Z * Z) :=
+  match l with [] => None | (k, v) :: l' => if atom_eqb id k then Some v else rget id l' end.
 
 (* the same stream with every datum / datum_page moved in front of the first event:
    the arrival order in which no Event ever waits for its Datum *)
@@ -116,31 +165,73 @@ Definition keys_overlap (docs : list (string * val)) : bool :=
    1. one Event out per Event in, in order (same uids);
    2. the StreamDatums made from Datums are, as a multiset of uids, exactly the datum ids referred to by
       (Event, unfilled external key) pairs - each exactly once;
-   3. each has seq_nums = indices + 1, and indices = [seq_num - 1, seq_num) when its Datum has no frame;
-   4. its ranges do not depend on whether the Datum or the Event arrived first (same ranges as in the
-      datums-first arrival order). *)
+   3. each has exactly the ranges of [spec_ranges]: seq_nums = indices + 1, indices = [seq_num - 1, seq_num)
+      when its Datum has no frame, the frame counters advanced in Event order otherwise - a function of
+      the Events and of the Datum contents, not of whether the Datum or the Event arrived first
+      (spec_ranges (datums_first docs) = spec_ranges docs, Proofs/NormalizerRun.v). *)
 Definition b_holds_b (docs : list (string * val)) : bool :=
   let r := run Deep [] docs in
-  let rc := run Deep [] (datums_first docs) in
   let evs := expand_events docs in
   atoms_eqb (out_uids "event" (r_out r)) (map (fun e => get_or "uid" e VNone) evs)
   && (keys_overlap docs
       || (let exp := expected_refs docs in
-          let frames := datum_frames docs in
+          let sp := spec_ranges docs in
           same_multiset (map (fun t => snd t) exp) (converted_uids docs (r_out r))
           && forallb (fun t =>
                let '(e, k, id) := t in
-               match sdat_ranges id (r_out r) with
-               | Some ((i0, i1), (q0, q1)) =>
-                   Z.eqb q0 (i0 + 1) && Z.eqb q1 (i1 + 1)
-                   && (match vget id frames with
-                       | Some VNone | None =>
-                           match get_or "seq_num" e VNone with
-                           | VInt q => Z.eqb i0 (q - 1) && Z.eqb i1 q
-                           | _ => false
-                           end
-                       | Some _ => true
-                       end)
-                   && ranges_eqb (sdat_ranges id (r_out r)) (sdat_ranges id (r_out rc))
-               | None => false
+               match sdat_ranges id (r_out r), rget id sp with
+               | Some ((i0, i1), (q0, q1)), Some (a, b) =>
+                   Z.eqb i0 a && Z.eqb i1 b && Z.eqb q0 (a + 1) && Z.eqb q1 (b + 1)
+               | _, _ => false
                end) exp)).
+
+(* ------------------------------------------------------------------ well-formed streams (hypothesis of the run-level theorem) *)
+
+Definition is_page_doc (nd : string * val) : bool := String.eqb (fst nd) "event_page" || String.eqb (fst nd) "datum_page".
+
+Definition reserved_free (d : dict) : bool :=
+  negb (dhas "time" d || dhas "seq_num" d || dhas "_time" d || dhas "_seq_num" d).
+
+Fixpoint nodup_atoms (l : list val) : bool :=
+  match l with [] => true | x :: l' => is_atom x && negb (existsb (atom_eqb x) l') && nodup_atoms l' end.
+
+Definition keys_subset (a b : dict) : bool := forallb (fun kv => dhas (fst kv) b) a.
+
+(* every Event: its descriptor has been received before it; its data keys are data keys of that descriptor;
+   neither data nor filled use the reserved names *)
+Fixpoint events_ok (seen : list (val * val)) (docs : list (string * val)) : bool :=
+  match docs with
+  | [] => true
+  | (name, d) :: r =>
+      if String.eqb name "event" then
+        (match vget (get_or "descriptor" (dict_of d) VNone) seen with
+         | Some dks => keys_subset (dict_of (get_or "data" (dict_of d) (VDict []))) (dict_of dks)
+         | None => false
+         end)
+        && reserved_free (dict_of (get_or "data" (dict_of d) (VDict [])))
+        && reserved_free (dict_of (get_or "filled" (dict_of d) (VDict [])))
+        && events_ok seen r
+      else if String.eqb name "descriptor" then
+        events_ok (seen ++ [(get_or "uid" (dict_of d) VNone, get_or "data_keys" (dict_of d) (VDict []))]) r
+      else events_ok seen r
+  end.
+
+Fixpoint stop_last (docs : list (string * val)) : bool :=
+  match docs with
+  | [] => false
+  | [(name, _)] => String.eqb name "stop"
+  | (name, _) :: r => negb (String.eqb name "stop") && stop_last r
+  end.
+
+Definition wf_b (docs : list (string * val)) : bool :=
+  negb (existsb is_page_doc docs)
+  && negb (keys_overlap docs)
+  && stop_last docs
+  && nodup_atoms (map fst (descriptors docs))
+  && forallb (fun p => reserved_free (dict_of (snd p))) (descriptors docs)
+  && events_ok [] docs
+  && nodup_atoms (map fst (datum_frames docs))
+  && nodup_atoms (map (fun t => snd t) (expected_refs docs))
+  && negb (existsb (fun u => existsb (atom_eqb u) (passthrough_uids docs)) (map (fun t => snd t) (expected_refs docs)))
+  && forallb is_atom (passthrough_uids docs)
+  && forallb is_atom (map (fun e => get_or "uid" e VNone) (expand_events docs)).
